@@ -26,3 +26,11 @@ Proof.
   - intros a b. apply strs_eqb_eq.
 Qed.
 Print Assumptions C02_full_run.
+
+Require Import Trace TrailProofs.
+(* removers of trailing comments (component / instantiation port and generic lists): an edit that passes the
+   checker's obligation keeps, in order, every comment of the replaced slice that stands on a line of its own *)
+Theorem C02_trailing_removers_keep_own_line_comments : forall l e, edit_trailing l e = true ->
+  Sub (own_lines (rev (firstn (e_start e) l)) (slice l (e_start e) (e_stop e))) (comments (e_new e)).
+Proof. exact edit_trailing_keeps_own_line_comments. Qed.
+Print Assumptions C02_trailing_removers_keep_own_line_comments.
